@@ -381,6 +381,14 @@ func x2Configs(prop, tier string) []*X2Config {
 			Depth: depth(5, 6), Cancel: true, FailOK: true, Reload: true, Symmetry: false, Restart: true, Props: props()})
 	}
 	if prop == "C08" {
+		// jobs with two independent tasks that are queued before they run (concurrency 1), every history without merging:
+		// the failure handling of a job that started from the wait list is that of a job that started at once
+		for _, cont := range []bool{false, true} {
+			pc := PipeCfg{Conc: 1, QL: -1, Graph: graphPar, Continue: cont}
+			res = append(res, &X2Config{Name: fmt.Sprintf("C08/every-history/queued-jobs-with-parallel-tasks/continue=%v", cont), Cfgs: []PipeCfg{pc}, Depth: depth(6, 7), NoDedup: true, FailOK: true, Symmetry: false, Drain: true, Props: props("C08")})
+		}
+	}
+	if prop == "C08" {
 		// a reload that flips allow_failure of a task while a job with two independent tasks runs
 		pa := PipeCfg{Conc: 1, QL: -1, Graph: graphPar}
 		pb := pa
